@@ -290,7 +290,9 @@ def _wrap_run(cb):
         finally:
             meth = CALLBACK_METHOD[cb]
             sides = [s for (m, _t, s) in LOG[n0:] if m == meth]
-            self.cb_log.append(["run", cb, input_step, int(scale), sides])
+            # the step object used must have been built from this step's own configuration
+            tags = sorted({str(t) for (_m, t, _s) in LOG[n0:]})
+            self.cb_log.append(["run", cb, input_step, int(scale), sides, tags])
 
     wrapper.__name__ = cb
     return wrapper
@@ -389,7 +391,7 @@ def expand_trace(cb_log):
         if e[0] == "check":
             out.append(["check", e[1], e[2], e[3]])
         else:
-            _, cb, name, scale, sides = e
+            _, cb, name, scale, sides = e[:5]
             for s in sides:
                 out.append(["run", cb, name, scale, s == "R"])
     return out
@@ -443,6 +445,7 @@ def run_history(ops, left=None, right=None):
                     "exception": exc_name,
                     "machine": machine_snapshot(m),
                     "trace": expand_trace(m.cb_log),
+                    "foreign_config": [[e[2], e[5]] for e in m.cb_log if e[0] == "run" and len(e) > 5 and e[5] not in ([], [e[2]])],
                 }
             )
             if res != "ok":
